@@ -9,6 +9,7 @@ package main
 //   RC(y): transform.ReverseComplement(y)
 
 import (
+	"strconv"
 	"go/token"
 	"sort"
 	"strings"
@@ -285,6 +286,18 @@ func isRotateBody(g *ssa.Function) int {
 			}
 		}
 	}
+	// a fast path that hands the input back for every string of some length >= 2, whatever its letters:
+	// "TA" is not its own least rotation
+	for _, a := range alts {
+		if !a.T.isParam(0) || len(alts) < 2 {
+			continue
+		}
+		for n := 2; n <= 3; n++ {
+			if v, ok := condOnLen(a.Cond, n); ok && v {
+				return broken
+			}
+		}
+	}
 	// modulo by the length: panics on the empty string
 	bad := false
 	eachInstr(g, func(i ssa.Instruction) {
@@ -359,4 +372,82 @@ func minOfSortedPairV(tb *TermBuilder, v ssa.Value) (a, b ssa.Value, ok bool) {
 func sortedStrings(xs ...string) []string {
 	sort.Strings(xs)
 	return xs
+}
+
+
+// condOnLen evaluates a path condition that only compares len(param[0]) with constants, for len = n.
+// ok is false when the condition looks at anything else.
+func condOnLen(c *Cond, n int) (val, ok bool) {
+	if c == nil {
+		return false, false
+	}
+	switch c.Op {
+	case "true":
+		return true, true
+	case "false":
+		return false, true
+	case "not":
+		if len(c.Args) != 1 {
+			return false, false
+		}
+		v, ok := condOnLen(c.Args[0], n)
+		return !v, ok
+	case "and", "or":
+		res := c.Op == "and"
+		for _, a := range c.Args {
+			v, ok := condOnLen(a, n)
+			if !ok {
+				return false, false
+			}
+			if c.Op == "and" {
+				res = res && v
+			} else {
+				res = res || v
+			}
+		}
+		return res, true
+	case "atom":
+		t := c.Atom
+		if t == nil || t.Op != "binop" || len(t.Args) != 2 {
+			return false, false
+		}
+		const ln = "call[builtin:len](param[0])"
+		l, r := t.Args[0], t.Args[1]
+		op := t.Name
+		if r.String() == ln {
+			l, r = r, l
+			switch op {
+			case "<":
+				op = ">"
+			case "<=":
+				op = ">="
+			case ">":
+				op = "<"
+			case ">=":
+				op = "<="
+			}
+		}
+		if l.String() != ln || r.Op != "const" {
+			return false, false
+		}
+		k, err := strconv.Atoi(r.Name)
+		if err != nil {
+			return false, false
+		}
+		switch op {
+		case "<":
+			return n < k, true
+		case "<=":
+			return n <= k, true
+		case ">":
+			return n > k, true
+		case ">=":
+			return n >= k, true
+		case "==":
+			return n == k, true
+		case "!=":
+			return n != k, true
+		}
+	}
+	return false, false
 }
